@@ -287,6 +287,14 @@ func newWorld(scratch string) *world {
 	settings.SetDefault(defs.OAuthClientIDSetting, "ego-c40")
 	settings.SetDefault(defs.OAuthClientSecretSetting, "ego-c40-secret")
 	settings.SetDefault(defs.OAuthPermissionMapSetting, "sroot="+defs.RootPermission+",slogon="+defs.LogonPermission)
+	settings.SetDefault(defs.OAuthRedirectURISetting, "https://"+hostName+"/services/admin/oauth/callback")
+
+	// passkeys are offered, and the AI helper points at a closed local port (refused at once)
+	settings.SetDefault(defs.WebAuthnAllowPasskeysSetting, "true")
+	settings.SetDefault(defs.WebAuthnRPIDSetting, hostName)
+	settings.SetDefault(defs.ServerAIEndpointSetting, "http://127.0.0.1:81/api/generate")
+	settings.SetDefault(defs.ServerAIModelSetting, "verif")
+	settings.SetDefault(defs.ServerAITimeoutSetting, "5s")
 
 	asHash, err := bcrypt.GenerateFromPassword([]byte(asSecret), bcrypt.MinCost)
 	must(err, "bcrypt")
@@ -303,6 +311,11 @@ func newWorld(scratch string) *world {
 	// --- the server log goes to a scratch file (the log endpoint serves it)
 	w.logFile = filepath.Join(scratch, "server.log")
 	ui.Active(ui.ServerLogger, true)
+
+	// (RunServer writes a JSON log unless the profile says otherwise)
+	settings.SetDefault(defs.LogFormatSetting, "json")
+	ui.LogFormat = ui.JSONFormat
+
 	must(ui.OpenLogFile(w.logFile, false), "server log")
 
 	// --- the route table, built by the server's own set-up code, real handlers
